@@ -13,8 +13,10 @@ import time
 from . import findings as _findings
 
 ROOT = os.path.dirname(os.path.dirname(os.path.dirname(os.path.abspath(__file__))))
-EVIDENCE_DIR = os.path.join(ROOT, 'evidence')
-REPLAY_DIR = os.path.join(ROOT, 'replays')
+# VF_OUT=<dir> redirects evidence and replay files (seeded-change runs must not overwrite the committed evidence)
+_OUT = os.environ.get('VF_OUT') or ROOT
+EVIDENCE_DIR = os.path.join(_OUT, 'evidence')
+REPLAY_DIR = os.path.join(_OUT, 'replays')
 
 MAX_REPORTED = 25          # VIOLATION lines printed per run (all are counted)
 
@@ -145,6 +147,11 @@ class Report(object):
         cov['configuration_list'] = self.configs[:400]
         cov['distinct_outcomes'] = len(self.outcomes)
         cov['known_findings_seen'] = {fid: n for fid, (f, n) in seen.items()}
+        try:
+            import klepto
+            cov['klepto_imported_from'] = os.path.dirname(os.path.abspath(klepto.__file__))
+        except Exception as e:
+            cov['klepto_imported_from'] = 'import failed: %r' % (e,)
         if self.level == 'model_checking':
             cov.setdefault('states', 0)
             cov.setdefault('transitions', 0)
